@@ -2,6 +2,7 @@ import F3.Spec.GraniteNet
 import F3.Props.C01
 import F3.Proofs.SyncNet
 import F3.Proofs.SyncTimedNet
+import F3.Proofs.SyncGeneralNet
 /-!
 # C02 — Validity
 
@@ -504,5 +505,55 @@ theorem timed_sync_ordered_needs_suffix : ¬ TimedSyncOrderedStatement := by
   decide
 
 end Timed
+
+/-! ## Arbitrary honest inputs sharing the base, under synchrony: what is decided is backed by a strong quorum of inputs
+
+Section `Sync` assumes one common input chain. With one input chain `inp p` per participant (all participants honest
+and exactly the members of the power table, positive total power, common base `b`) the network of model participants
+decides, in round 0, the *longest prefix supported by a strong quorum of input power*
+(`SyncGeneral.longestQuorumPrefix`; the termination statement is `C06.general_sync_decides`, the invariant
+`C06.general_sync_invariant`, proofs in `F3/Proofs/SyncGeneral*.lean`). The validity content: a decided value is
+non-empty, starts at the base and is a prefix of the inputs of participants holding a strong quorum — stronger than the
+"prefix of the input of *some* honest participant" of `validity_model`, and it specialises to the unanimous case. -/
+section GeneralInputs
+open F3.Instance F3.Net F3.SyncGeneral
+
+/-- **Validity of the synchronous run with arbitrary inputs.** In every admissible, synchrony-ordered execution a value
+decided by any participant is the longest quorum-supported prefix; it is non-empty, starts at the base, and the
+participants whose input it is a prefix of hold a strong quorum of power (the model's `strongQ`). -/
+theorem general_sync_validity (tbl : Table) (H : List Pid) (inp : Pid → Chain) (cfg : Pid → Cfg) (b : Nat)
+    (hH : tbl.entries.map (·.1) = H) (hnd : H.Nodup) (hpos : 0 < tbl.total)
+    (hbase : ∀ p ∈ H, (inp p).head? = some b) (ops : List NetOp)
+    (hexec : execOk (initNet tbl H cfg inp) ops = true) (hsync : SyncOrdered (initNet tbl H cfg inp) ops)
+    (p : Pid) (s : State) (hp : (p, s) ∈ (runNet (initNet tbl H cfg inp) ops).nodes) (d : Just)
+    (hd : s.termination = some d) :
+    d.value = longestQuorumPrefix tbl H inp ∧ d.value ≠ [] ∧ d.value.head? = some b ∧
+    strongQ tbl (((H.filter (fun h => d.value.isPrefixOf (inp h))).map tbl.power).sum) = true ∧
+    ∀ k, k ≠ [] → strongQ tbl (((H.filter (fun h => k.isPrefixOf (inp h))).map tbl.power).sum) = true → k <+: d.value := by
+  have g := gctx_of tbl H inp b hH hnd hpos hbase
+  have hn := general_invariant_core g cfg ops hexec hsync
+  have hv := (hn.node p s hp).inv.term d hd
+  rw [hv]
+  refine ⟨rfl, g.pstar_ne, g.pstar_head, ?_, ?_⟩
+  · rw [← F3.Sync.sumP_eq_sum]; exact g.pstar_sq
+  · intro k hk hs
+    rw [← F3.Sync.sumP_eq_sum] at hs
+    exact g.sq_le_pstar hk hs
+
+/-- with unanimous inputs that value is the common chain, as in `unanimous_sync_invariant` -/
+theorem longestQuorumPrefix_unanimous (tbl : Table) (H : List Pid) (c : Chain)
+    (hH : tbl.entries.map (·.1) = H) (hnd : H.Nodup) (hpos : 0 < tbl.total) (hc : c ≠ []) :
+    longestQuorumPrefix tbl H (fun _ => c) = c := by
+  obtain ⟨a, as, rfl⟩ : ∃ a as, c = a :: as := by
+    cases c with
+    | nil => exact absurd rfl hc
+    | cons a as => exact ⟨a, as, rfl⟩
+  exact pstar_unanimous (gctx_of tbl H (fun _ => a :: as) a hH hnd hpos (fun _ _ => rfl))
+
+/-- Non-vacuity: `syNet [7, 8]` with `syOps` (section `Sync`) is an instance of the general setting. -/
+example : longestQuorumPrefix syTbl [1, 2, 3] (fun _ => [7, 8]) = [7, 8] :=
+  longestQuorumPrefix_unanimous syTbl [1, 2, 3] [7, 8] (by decide) (by decide) (by decide) (by decide)
+
+end GeneralInputs
 
 end F3.Props.C02
